@@ -307,7 +307,29 @@ COMMON_DEV = ["cosmwasm-std", "cosmwasm-schema", "schemars", "cw-multi-test", "a
               "cw-utils", "thiserror", "itertools"]
 
 
-def assemble(repo, dest, include_examples=True, witness_dirs=(), sylvia_features=None, splice=True):
+def ui_bin_name(f, ui):
+    return "ui_" + os.path.relpath(f, ui)[:-3].replace("/", "__").replace("-", "_")
+
+
+def parse_headers(path):
+    """`//@ key: value` header lines and `//~ ERROR` markers (1-based line numbers) of a witness file."""
+    hdr = {"markers": []}
+    with open(path) as f:
+        for i, line in enumerate(f, 1):
+            mm = re.match(r"\s*//@\s*([a-z_]+)\s*:\s*(.*?)\s*$", line)
+            if mm:
+                hdr[mm.group(1)] = mm.group(2)
+            if "//~ ERROR" in line:
+                hdr["markers"].append(i)
+    return hdr
+
+
+def copy_module_tree(src_root, dst_root):
+    os.makedirs(os.path.dirname(dst_root), exist_ok=True)
+    shutil.copyfile(src_root, dst_root)
+
+
+def assemble(repo, dest, include_examples=True, witness_dirs=(), sylvia_features=None, splice=True, include_ui=True):
     """Build the scratch workspace under dest. Returns list[SourceCrate]."""
     if os.path.exists(dest):
         shutil.rmtree(dest)
@@ -439,7 +461,7 @@ doctest = false
             crates.append(c)
             members.append("ex-" + pname)
 
-    # ---- witness packages from /verif/corpus (each has its own Cargo.toml.in)
+    # ---- witness packages from /verif/corpus: Cargo.toml.in + src/bin/*.rs (+ src/lib.rs), `//@` headers per file
     for wd in witness_dirs:
         wname = os.path.basename(wd)
         ddir = os.path.join(dest, wname)
@@ -447,23 +469,73 @@ doctest = false
             man = f.read()
         man = man.replace("@SYLVIA_DEP@", sylvia_dep).replace("@VPROBE_DEP@", vprobe_dep).replace("@SERDE_DEP@", serde_dep)
         man = man.replace("@REPO@", repo).replace("@VERIF@", util.VERIF).replace("@SYLVIA_FEATURES@", feat_s)
-        for n in COMMON_DEV:
+        for n in COMMON_DEV + ["semver"]:
             man = man.replace(f"@DEP:{n}@", dep_line(n, vers))
         write(os.path.join(ddir, "Cargo.toml"), man)
-        meta_p = os.path.join(wd, "targets.json")
-        with open(meta_p) as f:
-            targets = json.load(f)
-        for t in targets:
-            # {"name":..., "root": "src/lib.rs", "suffix": "", "cfg_test": false, "index": true}
-            c = SourceCrate(t["name"], os.path.join(ddir, t["root"]), f"verif/corpus/{wname}/{t['root']}",
-                            cfg_test=t.get("cfg_test", False), features=feats)
-            c.suffix = t.get("suffix", "")
-            c.expect_fail = t.get("expect_fail", False)
-            process_tree(os.path.join(wd, t["root"]), c.root, counter, c, splice and t.get("splice", True))
-            if t.get("index", True):
-                crates.append(c)
-        # copy any non-rs extras
+        roots = []
+        if os.path.exists(os.path.join(wd, "src", "lib.rs")):
+            roots.append(("src/lib.rs", wname.replace("-", "_"), ""))
+        bdir = os.path.join(wd, "src", "bin")
+        if os.path.isdir(bdir):
+            for f in sorted(os.listdir(bdir)):
+                if f.endswith(".rs"):
+                    roots.append((f"src/bin/{f}", f[:-3], ".bin"))
+        for rel, tname, suffix in roots:
+            hdr = parse_headers(os.path.join(wd, rel))
+            expect_fail = hdr.get("expect", "pass") == "fail"
+            c = SourceCrate(tname, os.path.join(ddir, rel), f"verif/corpus/{wname}/{rel}", cfg_test=False, features=feats)
+            c.suffix = suffix
+            c.expect_fail = expect_fail
+            c.witness = {"props": hdr.get("props", "").split(), "expect": hdr.get("expect", "pass"),
+                         "exact": hdr.get("exact", "no") == "yes", "markers": hdr["markers"], "package": wname,
+                         "rel": rel, "what": hdr.get("what", "")}
+            index = hdr.get("index", "no" if expect_fail else "yes") == "yes"
+            if index:
+                process_tree(os.path.join(wd, rel), c.root, counter, c, splice)
+            else:
+                copy_module_tree(os.path.join(wd, rel), c.root)
+            c.indexed = index
+            crates.append(c)
+        for extra in ("src/common", "src/shared"):
+            if os.path.isdir(os.path.join(wd, extra)):
+                shutil.copytree(os.path.join(wd, extra), os.path.join(ddir, extra), dirs_exist_ok=True)
         members.append(wname)
+
+    # ---- the repository's own trybuild UI tests as must-fail witnesses (expectations from the committed .stderr files)
+    if include_ui:
+        ui = os.path.join(repo, "sylvia", "tests", "ui")
+        ddir = os.path.join(dest, "repo-ui")
+        deps = "\n".join([sylvia_dep, serde_dep] + [dep_line(n, vers) for n in COMMON_DEV])
+        write(os.path.join(ddir, "Cargo.toml"), f"""[package]
+name = "repo-ui"
+version = "0.0.0"
+edition = "2021"
+autobins = false
+
+[dependencies]
+{deps}
+
+""" + "".join(f'[[bin]]\nname = "{ui_bin_name(f, ui)}"\npath = "src/bin/{ui_bin_name(f, ui)}.rs"\n\n' for f in util.walk_files(ui, exts={".rs"})))
+        for f in util.walk_files(ui, exts={".rs"}):
+            bn = ui_bin_name(f, ui)
+            dst = os.path.join(ddir, "src", "bin", bn + ".rs")
+            os.makedirs(os.path.dirname(dst), exist_ok=True)
+            shutil.copyfile(f, dst)
+            stderr = f[:-3] + ".stderr"
+            markers = []
+            if os.path.exists(stderr):
+                for line in open(stderr):
+                    mm = re.match(r"\s*--> (\S+):(\d+):(\d+)", line)
+                    if mm and mm.group(1).endswith(os.path.basename(f)):
+                        markers.append(int(mm.group(2)))
+            c = SourceCrate(bn, dst, "sylvia/tests/ui/" + os.path.relpath(f, ui), cfg_test=False, features=feats)
+            c.suffix = ".bin"
+            c.expect_fail = True
+            c.indexed = False
+            c.witness = {"props": ["C18"], "expect": "fail", "exact": False, "markers": sorted(set(markers)), "package": "repo-ui",
+                         "rel": os.path.relpath(f, repo), "what": "repository UI test: " + os.path.relpath(f, ui), "has_stderr": os.path.exists(stderr)}
+            crates.append(c)
+        members.append("repo-ui")
 
     write(os.path.join(dest, "Cargo.toml"), "[workspace]\nresolver = \"2\"\nmembers = [%s]\n" %
           ", ".join(f'"{m}"' for m in members))
